@@ -187,6 +187,19 @@ impl UnionArray {
             ));
         }
 
+        // Every child array must have the data type declared by its field
+        // (nested field names and metadata are not compared).
+        for (child, (_, field)) in children.iter().zip(fields.iter()) {
+            if !child.data_type().equals_datatype(field.data_type()) {
+                return Err(ArrowError::InvalidArgumentError(format!(
+                    "Union child array data type {} does not match field {:?} of type {}",
+                    child.data_type(),
+                    field.name(),
+                    field.data_type()
+                )));
+            }
+        }
+
         if let Some(offsets) = &offsets {
             // There must be an offset value for every type id value.
             if offsets.len() != type_ids.len() {
